@@ -12,8 +12,8 @@ DIFF = (" The model is tied to /repo on every run by regenerating the can_catch/
         "on generated cases under the property's projection (outcome class; value; help level; for failures WHICH error message "
         "is reported: the text of the library must fit the frame of the message kind -- and carry the payload -- the model "
         "predicts; in the checks whose property speaks about the message itself (C04, C06, C11) also its TEXT: Model/Message.v "
-        "transcribes Message::render and the extracted model's stderr text is compared byte for byte with the library's for "
-        "every failure reported at the top level on a UTF-8 line); a property-specific oracle on the implementation's outputs "
+        "transcribes Message::render, the model's failure carries the document the reporting command level built, and its "
+        "text is compared byte for byte with the library's stderr on every UTF-8 line); a property-specific oracle on the implementation's outputs "
         "alone searches for a concrete failing input.")
 
 CHECKS = {
@@ -45,7 +45,9 @@ CHECKS = {
          "count, last, fallback(_with) pass a final error on unchanged at any iteration; guard/parse/map/hide and construct! "
          "never turn an error into a value; absence is catchable. The message carries the text: C06_message_carries_conversion_text / _guard_text -- the document "
          "Message::render (Model/Message.v) builds for a conversion/parse failure ends with `: ` + the conversion error, for "
-         "a guard failure with the guard's message, and render's first stage keeps these kinds (C06_message_kinds_kept); the "
+         "a guard failure with the guard's message, and render's first stage keeps these kinds (C06_message_kinds_kept); "
+         "C06_failed_value_text_on_stderr: when the parser of a command level fails with such a failure, a run of the level that "
+         "ends on stderr reports exactly that message and the document it carries ends with the text; the "
          "oracle (every typed occurrence replaced by invalid text; invalid environment values) searches the implementation." + DIFF,
          "4/C06", "Rocq proof (catch table + per-wrapper propagation laws) over a hand-written model + differential correspondence + invalid-value oracle"),
  "C07": ("proof", "Theorems in coq/Props/C07.v: the full decision rule of or_else (deeper path wins; only success wins; both "
@@ -229,8 +231,9 @@ CHECKS = {
          "C04_error_rendering_returns (MsgOk.v), for EVERY definition of the model without any premise: the evaluator reports "
          "only messages whose recorded positions are items of the line (mutual induction over the parser), conflict marks name "
          "positions of the line in every reachable state, the tokenizer's ambiguity message names an item and a cluster of at "
-         "least two characters -- so Message::render (Model/Message.v) returns a document for every failure any command level "
-         "reports: no index out of range, no unwrap of None, no panicking set_scope. "
+         "least two characters -- so the failure a run ends with, whichever command level reported it, carries the document "
+         "Message::render (Model/Message.v) built there (None = a panic of the rendering: index out of range, unwrap of None, "
+         "panicking set_scope -- impossible). "
          "C04_flat_fragment_total / C04_flat_level_total: the same through the token-list interpreter. NOT theorems: adjacent "
          "groups with `any`, subcommands or nested groups as members, or without a first "
          "item (retry loop fuelled; FUEL and the panic sites are explicit outcomes compared with the implementation; one class "
